@@ -57,9 +57,14 @@ pub(crate) fn boolean(s: &Sexp) -> R<bool> {
         _ => Err("bool expected".into()),
     }
 }
-/// exact m * 2^e as f64 (the generators keep |m| < 2^53 and e in the normal range)
+/// exact m * 2^e as f64 (the generators keep |m| < 2^53; values down to the subnormal range are exact when they are doubles)
 pub(crate) fn dyadic(m: i64, e: i64) -> f64 {
-    (m as f64) * 2f64.powi(e as i32)
+    if e < -1000 {
+        // 2^e itself may not be representable (subnormal results): scale in two exact steps
+        ((m as f64) * 2f64.powi(-1000)) * 2f64.powi((e + 1000) as i32)
+    } else {
+        (m as f64) * 2f64.powi(e as i32)
+    }
 }
 pub(crate) fn list(s: &Sexp) -> R<&[Sexp]> {
     match s {
